@@ -24,6 +24,7 @@ RULE = (
     "snapshots taken at each Save_Iter. Non-trivial = a restore/read of an iteration older than the last with at least one "
     "solve or folder change in between; distinct = sha1 of the history."
     ' Round 8: Beam members may be dynamic (hyperbolic scheme: the rates belong to the saved state); save_load may target a folder that holds the stored iterations of an earlier run.'
+    ' Round 9: after Load_Simu the results of the current state are compared before any Set_Iter; the arrays returned by Get_results are overwritten in place.'
 )
 ASSUMPTIONS = [
     "shadow snapshots are taken through public getters (fields), Result() values and mesh arrays at the time of Save_Iter",
